@@ -84,7 +84,8 @@ class LinearCredit(ObjectWithSchema):
             # Linear interpolation
             credit = 1 + (min_cred - 1) * steps / decrease_steps
 
-        return round(credit, 4)
+        # Rounding must not take the credit below the configured minimum
+        return max(round(credit, 4), min_cred)
 
 class GeometricCredit(ObjectWithSchema):
     """
